@@ -76,6 +76,29 @@ Theorem C07_issue_unknown_or_redacted_target_no_effect :
        i_op_action dbg i (ICommentRedact id) entry actor d = Err EMissing i).
 Proof. exact issue_ignored_targets. Qed.
 
+(* the issue's author (the code recomputes it on every authorization as the
+   author of the first live comment of the timeline) is, in every reachable
+   state, the author of the root op: the root comment can be neither redacted
+   nor displaced; in particular Issue::author/root never hit their `expect` *)
+Theorem C07_issue_author_fixed :
+  forall dbg atomic (root : iop) (ops : list iop) i0 i,
+    i_init dbg root = Ok i0 ->
+    Forall (fun o' => op_id o' <> op_id root) ops ->
+    i_run dbg atomic i0 ops = Some i ->
+    exists c, i_root i = Some (op_id root, c) /\ c_author c = op_actor root.
+Proof. exact issue_author_fixed. Qed.
+
+(* the premises [i_run .. = Some _] above are not restrictive: without debug
+   assertions the evaluation of an issue history never panics (with them, only
+   the duplicate-timeline-entry assertions of thread.rs can fire, when one op
+   carries two thread actions) *)
+Theorem C07_issue_release_never_panics :
+  forall atomic (root : iop) (ops : list iop) i0,
+    i_init false root = Ok i0 ->
+    Forall (fun o' => op_id o' <> op_id root) ops ->
+    i_run false atomic i0 ops <> None.
+Proof. exact issue_release_never_panics. Qed.
+
 (* ------------------------------------------------------------------ patches *)
 
 (* For ANY patch history and each of its ops (accepted or rejected):
